@@ -177,7 +177,7 @@ pub fn next_table(g: &mut Gen, r: &dyn Runner) -> String {
             2 => len + 1 + g.rng.below(3),
             _ => g.rng.below(len + 1),
         };
-        format!("{} iter {} {}", tgt, p, g.rng.pick(&["iter", "iter_mut"]))
+        format!("{} iter {} {}{}", tgt, p, g.rng.pick(&["iter", "iter_mut"]), if g.rng.chance(1, 4) { " nth" } else { "" })
     } else if x < 760 {
         format!("{} retain", tgt)
     } else if x < 785 {
@@ -311,7 +311,7 @@ fn set_single(g: &mut Gen, r: &dyn Runner) -> String {
             2 => len + 1 + g.rng.below(3),
             _ => g.rng.below(len + 1),
         };
-        format!("{} iter {}", tgt, p)
+        format!("{} iter {}{}", tgt, p, if g.rng.chance(1, 4) { " iter nth" } else { "" })
     } else if x < 763 {
         format!("{} with_capacity {}", tgt, g.rng.below(60))
     } else if x < 780 {
